@@ -14,7 +14,7 @@
    uses, which also handles emergency break opportunities (`EB` items) and is `break_lines`
    when there is none (C11_break_lines_e_no_eb). *)
 From Verif Require Import Layout.LineBreak Layout.LineBreakSpec Layout.LineBreakProofs
-  Layout.LineBreakEmergency.
+  Layout.LineBreakEmergency Layout.LineBreakEmergencyUnique.
 From Coq Require Import List ZArith QArith Bool.
 Import ListNotations.
 Open Scope Z_scope.
@@ -333,6 +333,32 @@ Proof.
 Qed.
 Print Assumptions C11_break_lines_e_no_eb.
 
+(* the division WITH emergency opportunities is determined by the property: a division of the
+   tagged pieces into non-empty lines that fits, is maximal (at an emergency boundary: not even
+   the next piece fits, i.e. the emergency break is taken at the last position that fits),
+   breaks at an emergency opportunity only on a line without regular one and respects forced
+   breaks IS break_lines_e.  The hypotheses are the conclusions of C11_break_partition_e,
+   C11_lines_fit_e, C11_greedy_maximal_e, C11_emergency_only, C11_forced_respected_e, unchanged
+   (no extra tie-breaking clause); this licenses the comparison of the implementation's line
+   partition by equality when overflow-wrap is in play *)
+Theorem C11_break_unique_e : forall avail indent items ls,
+  wf items -> PartitionE (tsub items) ls ->
+  FitsE avail (avail - indent) ls -> MaximalE avail (avail - indent) ls ->
+  EmergencyOnly ls ->
+  Forall (fun l => forall x y, l = x ++ Hard :: y -> forallb is_close y = true) (flat_e ls) ->
+  ls = break_lines_e avail indent items.
+Proof. exact break_unique_e. Qed.
+Print Assumptions C11_break_unique_e.
+
+(* ... and conversely: the five statements characterise break_lines_e *)
+Theorem C11_break_unique_e_iff : forall avail indent items ls, wf items ->
+  (ls = break_lines_e avail indent items <->
+   PartitionE (tsub items) ls /\ FitsE avail (avail - indent) ls /\
+   MaximalE avail (avail - indent) ls /\ EmergencyOnly ls /\
+   Forall (fun l => forall x y, l = x ++ Hard :: y -> forallb is_close y = true) (flat_e ls)).
+Proof. exact break_unique_e_iff. Qed.
+Print Assumptions C11_break_unique_e_iff.
+
 (* ---- non-vacuity: a paragraph with a span (padding 5+5), an inline-block and a <br>,
    broken at 100 with text-indent 10; the hypotheses of C11_break_unique are inhabited *)
 Definition ex_items : list item :=
@@ -388,6 +414,37 @@ Example C11_example_tags :
   map (map fst) (break_lines_e 50 0 (bw 2 ++ [Space Normal 10] ++ bw 8)) =
   [[true; false]; [true; false; false; false; false]; [false; false; false]].
 Proof. vm_compute. reflexivity. Qed.
+
+(* the hypotheses of C11_break_unique_e are inhabited by a paragraph that needs an emergency
+   break (`aa bbbbbbbb cc` in 50, a forced break added at the end of the word): the third and
+   fourth lines start at an emergency opportunity *)
+Definition ex_bw : list item :=
+  bw 2 ++ [Space Normal 10] ++ bw 8 ++ [Hard; Space Normal 10] ++ bw 2.
+
+Example C11_example_unique_e_hyps :
+  let ls := break_lines_e 50 0 ex_bw in
+  wf ex_bw /\ PartitionE (tsub ex_bw) ls /\ FitsE 50 (50 - 0) ls /\ MaximalE 50 (50 - 0) ls /\
+  EmergencyOnly ls /\
+  Forall (fun l => forall x y, l = x ++ Hard :: y -> forallb is_close y = true) (flat_e ls) /\
+  map (map fst) ls = [[true; false]; [true; false; false; false; false]; [false; false; false]; [true; false]].
+Proof.
+  split; [unfold wf, ex_bw; repeat constructor; vm_compute; discriminate|].
+  refine (conj (break_partition_e 50 0 ex_bw) (conj (lines_fit_e 50 0 ex_bw)
+        (conj (greedy_maximal_e 50 0 ex_bw) (conj (emergency_only 50 0 ex_bw)
+        (conj (forced_respected_e 50 0 ex_bw) _))))).
+  vm_compute. reflexivity.
+Qed.
+
+(* the clauses discriminate: breaking the long word one glyph earlier is not maximal *)
+Example C11_example_unique_e_early_break :
+  let ls := break_lines_e 50 0 (bw 8) in
+  let early := [firstn 4 (tsub (bw 8)); skipn 4 (tsub (bw 8))] in
+  map (@length _) ls = [5%nat; 3%nat] /\ PartitionE (tsub (bw 8)) early /\ FitsE 50 50 early /\
+  EmergencyOnly early /\ ~ MaximalE 50 50 early.
+Proof.
+  vm_compute. repeat split; try discriminate; try (repeat constructor; discriminate).
+  intros [[H|H] _]; discriminate.
+Qed.
 
 (* ---- a box with horizontal padding glued to what follows: `<span style="padding:0 20px">aa
    bb c</span>dd` in 120 (glyphs of 10).  The box fits entirely (110), `dd` is glued to it and
